@@ -99,9 +99,21 @@ fn replace_fixer<D: Doc>(
   if let Some(frag) = frags.next() {
     ret.extend_from_slice(&D::Source::decode_str(frag));
   }
+  // true while a multi-line insertion has moved the rest of the current template line to
+  // another output line: the slot's indentation is then the one of that output line
+  let mut line_broken = false;
   for ((var, indent), frag) in vars.zip(frags) {
-    if let Some(bytes) = maybe_get_var(env, var, indent) {
+    let indent = if line_broken {
+      get_indent_at_offset::<D::Source>(&ret)
+    } else {
+      *indent
+    };
+    if let Some(bytes) = maybe_get_var(env, var, &indent) {
+      line_broken |= bytes.contains(&D::Source::decode_str("\n")[0]);
       ret.extend_from_slice(&bytes);
+    }
+    if frag.contains('\n') {
+      line_broken = false;
     }
     ret.extend_from_slice(&D::Source::decode_str(frag));
   }
